@@ -235,6 +235,7 @@ def run(ck, F):
     if ub_ is not None:
         C11.rule_all_siblings_visited(sub, F, ub_, "R4")
     rule_naming(ck, F, X)
+    rule_components_by_name(ck, F)
 
 
 def rule_builtins(ck, F, X, rule="R1", want=BUILTINS):
@@ -293,7 +294,8 @@ def rule_builtins(ck, F, X, rule="R1", want=BUILTINS):
 # ---- R2 ---------------------------------------------------------------------------------------------
 
 MIN = [None, "0", "1", "x"]
-MAX = [None, "0", "1", "2", "17", "unbounded", "x"]
+# (the two long numerals: the first number a 32-bit reading does not hold, and the 2^63 - 1 that tooling writes for "no limit")
+MAX = [None, "0", "1", "2", "17", "4294967296", "9223372036854775807", "unbounded", "x"]
 USE = [None, "optional", "required", "x"]
 PTAG = ["sequence", "choice", "complexType", "extension", "all"]
 
@@ -633,6 +635,42 @@ def rule_children_by_name(ck, F):
         ck.ok("R4", "children-by-name", "-", f"no reader selects a child by position ({n_bodies} bodies)")
 
 
+REGISTRY_POSITIONAL = ("[T]>::get", "[T]>::get_mut", "[T]>::get_unchecked", "ops::Index::index", "ops::IndexMut::index_mut", "Iterator::nth", "[T]>::first",
+                       "[T]>::last", "Vec::<T, A>::swap_remove", "Vec::<T, A>::remove", "[T]>::split_at", "Iterator::skip", "[T]>::binary_search_by_key",
+                       "[T]>::binary_search_by", "[T]>::binary_search")
+
+
+def rule_components_by_name(ck, F, rule="R5"):
+    """A reference names the component it means; the list of components is searched for that name. A component taken from the list by
+    its *position* — through a side table of positions, an index remembered from another document — is whatever stands there: after
+    two documents were merged the positions of the second one are off by the length of the first, and a reference binds to an
+    unrelated component without any error. Zero-count scan: no function of the library takes an element of a `Vec<Rc<RustNode>>` by
+    position."""
+    from engine.rulekit import mir as M
+    hits = []
+    n = 0
+    for b in scans.bodies(F.lib):
+        if "yaserde_tests" in b["path"] or "::tests::" in b["path"] or "helpers_content" in b["path"]:
+            continue
+        n += 1
+        B = M.Body(b)
+        for bb, t in B.calls():
+            d = M.Body.callee_decl(t) or ""
+            if not d.endswith(REGISTRY_POSITIONAL) or not t.get("args"):
+                continue
+            a0 = t["args"][0]
+            tys = " ".join(str(B.local_ty(o.local)) for o in M.trace(B, a0) if o.kind == "arg") + " " + (str(B.local_ty(a0["p"]["l"])) if a0.get("k") in ("copy", "move") else "")
+            if re.search(r"(Vec<|\[)\s*(std::rc::Rc<|std::sync::Arc<|std::boxed::Box<)?[\w:]*RustNode\b", tys):
+                hits.append((b["path"], t.get("sp"), d))
+    for fn, site, d in hits:
+        short = fn.split("::{closure", 1)[0].rsplit("::", 1)[-1]
+        ck.violation(rule, f"component-by-position:{short}:{d.rsplit('::', 1)[-1]}", site,
+                     f"{fn} takes a component out of the list of components by its position (`{d.rsplit('::', 1)[-1]}`), not by its name: positions "
+                     f"remembered before two documents were merged (or from another document) point at unrelated components afterwards", fn=fn)
+    if not hits:
+        ck.ok(rule, "components-by-name", "-", f"no function takes a component from the list of components by position ({n} bodies)")
+
+
 def rule_dispatch(ck, F, X):
     rule_children_by_name(ck, F)
     roles = A.complex_readers(F)
@@ -802,13 +840,15 @@ def rule_emission(ck, F, X):
     # the schema reader pushes every converted child once: the functions (reachable from the public API) that push onto the
     # document's `nodes` are found by that push, not by name
     live = scans.api_reachable(F.lib)
+    appenders = node_appenders(F)
     holders = []
     for b in F.lib.bodies:
         if b.get("hir") is None or b.get("closure") or b["path"] not in live or "tests::" in b["path"] or "yaserde_tests" in b["path"]:
             continue
         nb = Hh.norm_body(b)
-        pushes = [x for x in Hh.exprs(nb["value"]) if x.get("k") == "MethodCall" and x["name"] in ("push", "extend") and Hh.describe(x["recv"]).endswith("nodes")
-                  and "RustNode" in ((Hh.strip(x["recv"]).get("adj_ty") or "") + (Hh.strip(x["recv"]).get("ty") or ""))]
+        if b["path"] in appenders:
+            continue
+        pushes = [x for x in Hh.exprs(nb["value"]) if _pushes_component(x) or (x.get("k") in ("Call", "MethodCall") and (Hh.callee_path(x) or "") in appenders)]
         if pushes and _converts_components(F, nb):
             holders.append((b, nb, pushes))
     if not holders:
@@ -837,17 +877,42 @@ def rule_emission(ck, F, X):
 SINGLE_PICK = ("find", "iter::find", "next", "nth", "last", "next_back", "find_map", "iter::find_map", "min_by_key", "max_by_key", "first", "position")
 
 
+def _pushes_component(x):
+    return (x.get("k") == "MethodCall" and x["name"] in ("push", "extend") and Hh.describe(x["recv"]).endswith("nodes")
+            and "RustNode" in ((Hh.strip(x["recv"]).get("adj_ty") or "") + (Hh.strip(x["recv"]).get("ty") or "")))
+
+
+def node_appenders(F):
+    """methods that append the component they are handed to the list of components (`doc.push_node(node)`): a call of one is the
+    push it makes (exactly one push of a parameter, outside any loop or closure)"""
+    out = set()
+    for b in F.lib.bodies:
+        if b.get("hir") is None or b.get("closure") or "tests::" in b["path"] or "yaserde_tests" in b["path"]:
+            continue
+        nb = Hh.norm_body(b)
+        params = {i_ for p_ in nb.get("params", []) for i_, _n in Hh.pat_bindings(p_)}
+        ps = [x for x in Hh.exprs(nb["value"]) if _pushes_component(x) and x["args"]]
+        if len(ps) != 1 or any(x.get("k") in ("For", "While", "Loop", "Closure") for x in Hh.exprs(nb["value"])):
+            continue
+        a0 = Hh.strip(ps[0]["args"][0])
+        if a0.get("k") == "Path" and a0.get("res") == "local" and a0.get("id") in params:
+            out.add(b["path"])
+    return out
+
+
 def schema_readers(F):
     """the functions (reachable from the public API) that push converted components onto a document's `nodes`: the readers of one
     `schema` element"""
     live = scans.api_reachable(F.lib)
     out = []
+
+    pushes = _pushes_component
+    appenders = node_appenders(F)
     for b in F.lib.bodies:
-        if b.get("hir") is None or b.get("closure") or b["path"] not in live or "tests::" in b["path"] or "yaserde_tests" in b["path"]:
+        if b.get("hir") is None or b.get("closure") or b["path"] not in live or "tests::" in b["path"] or "yaserde_tests" in b["path"] or b["path"] in appenders:
             continue
         nb = Hh.norm_body(b)
-        if any(x.get("k") == "MethodCall" and x["name"] in ("push", "extend") and Hh.describe(x["recv"]).endswith("nodes")
-               and "RustNode" in ((Hh.strip(x["recv"]).get("adj_ty") or "") + (Hh.strip(x["recv"]).get("ty") or "")) for x in Hh.exprs(nb["value"])) \
+        if any(pushes(x) or (x.get("k") in ("Call", "MethodCall") and (Hh.callee_path(x) or "") in appenders) for x in Hh.exprs(nb["value"])) \
                 and _converts_components(F, nb):
             out.append(b["path"])
     return out
